@@ -32,6 +32,7 @@ HAND = {
     "sk_save_w": "save_weights_ops",
     "sk_save_w_ins": "save_weights_ops",
     "rc_now": "rc_today",
+    "rh_now": "KeepPickled",
 }
 
 
@@ -46,7 +47,8 @@ def translate(chk):
                     ("sk_dump_nokeep", lambda: c11_ops.safe_file_dump(False)[0]),
                     ("sk_save_w", lambda: c11_ops.flowmodel_save_weights()[0]),
                     ("sk_save_w_ins", lambda: c11_ops.importance_save_weights()[0]),
-                    ("rc_now", c11_ops.reader_config)):
+                    ("rc_now", c11_ops.reader_config),
+                    ("rh_now", lambda: c11_ops.resume_holder()[0])):
         try:
             defs[key] = fn()
             status[key] = "translated: " + defs[key]
@@ -67,12 +69,16 @@ def defs_text(defs):
     for k in ("sk_dump_keep", "sk_dump_nokeep", "sk_save_w", "sk_save_w_ins"):
         t += f"Definition {k} : writer := {defs[k]}.\n"
     t += f"Definition rc_now : rcfg := {defs['rc_now']}.\n"
+    t += f"Definition rh_now : rholder := {defs['rh_now']}.\n"
     return t
 
 
 def today(chk, defs):
     txt = common.COQ_HEADER + IMPORTS + defs_text(defs)
     txt += ("Lemma today : c11_ok rc_now sk_dump_keep sk_dump_nokeep sk_save_w sk_save_w_ins = true.\n"
+            "Proof. vm_compute. reflexivity. Qed.\n")
+    # two kills: the resumed sampler checkpoints to the file name it holds after the resume
+    txt += ("Lemma today_two : c11_two_ok rc_now rh_now sk_dump_keep sk_dump_nokeep = true.\n"
             "Proof. vm_compute. reflexivity. Qed.\n")
     # instantiating the soundness theorems on today's skeletons = the property for this source
     txt += """
@@ -107,6 +113,29 @@ Proof.
   exact (pickle_checker_sound_closed B bytes decode H1 H2 H3 rc_now mk scens Hc).
 Qed.
 
+Lemma today_property_two_kills : forall mk scens,
+  In (mk, scens) [(sk_dump_keep, std_pickle_scens); (sk_dump_nokeep, std_pickle_scens);
+                  (sk_dump_keep, ins_pickle_scens); (sk_dump_nokeep, ins_pickle_scens)] ->
+  forall s, In s scens -> legal (s_init s) (mk PKL (s_new s)) = true -> forall c0 : cstate B,
+    ahnd (s_init s) = None -> chnd c0 = None -> (forall f, classify decode (cfs c0) f = afs (s_init s) f) ->
+  forall n1 j1 o1 src,
+    In (o1, src) (resume_src rc_now (classify decode (crash_exec bytes (mk PKL (s_new s)) c0 n1 j1))) ->
+  forall n2 j2 o2,
+    In o2 (resume rc_now (classify decode
+            (crash_exec bytes (mk (holder rh_now src) (next_payload (s_new s)))
+               {| cfs := crash_exec bytes (mk PKL (s_new s)) c0 n1 j1; chnd := None |} n2 j2))) ->
+    second_outcome o1 (next_payload (s_new s)) o2.
+Proof.
+  intros mk scens Hin s Hs Hl.
+  assert (Hc : two_crash_checker rc_now rh_now mk scens = true).
+  { pose proof today_two as T. unfold c11_two_ok in T.
+    apply andb_prop in T. destruct T as [T T4]. apply andb_prop in T. destruct T as [T T3].
+    apply andb_prop in T. destruct T as [T1 T2].
+    simpl in Hin. destruct Hin as [E|[E|[E|[E|[]]]]]; inversion E; subst; assumption. }
+  unfold two_crash_checker in Hc. rewrite forallb_forall in Hc.
+  exact (two_crash_sound B bytes decode H1 H2 H3 rc_now rh_now mk s _ (Hc s Hs) Hl).
+Qed.
+
 Lemma today_property_weights : forall s, In s std_weights_scens -> forall c0 : cstate B,
     ahnd (s_init s) = None -> chnd c0 = None -> (forall f, classify decode (cfs c0) f = afs (s_init s) f) ->
   forall n j o, In o (resume rc_now (classify decode (crash_exec bytes (sk_save_w WT (s_new s)) c0 n j))) ->
@@ -133,8 +162,9 @@ Qed.
 End TodayProperty.
 """
     ok, _, err = chk.coq_run("today", txt)
-    chk.oblige("today: c11_ok on the regenerated writers (safe_file_dump keep/no-keep, FlowModel.save_weights, "
-               "ImportanceFlowModel.save_weights) and reader configuration + instantiated soundness theorems",
+    chk.oblige("today: c11_ok and c11_two_ok (two kills, writer on the file the resumed sampler holds) on the regenerated "
+               "writers (safe_file_dump keep/no-keep, FlowModel.save_weights, ImportanceFlowModel.save_weights), reader "
+               "configuration and resume_file holder + instantiated soundness theorems",
                "today", ok, err)
     if not ok:
         # explanation output of the checker: which scenario / crash state is unsafe
@@ -192,7 +222,23 @@ def gen_cases(chk):
     # --- kill, resume, kill again inside the next weights save (known finding: residual of D3)
     s1 = dict(W("train"), k=3, j=5000)
     add("std-second-kill", "std_late", [s1, dict(W("train"), k=3, j=7000)], expand=False)
+    # --- two kills around a resume: kill during a checkpoint, resume, kill during the RESUMED sampler's next
+    #     checkpoint.  First kill before the final rename (second "move" event): the resume file is gone, the
+    #     resume goes through the .old fallback.
+    via_old = lambda wr: dict(W(wr), kk=["move", 2])
+    add("std-two-kills-via-old", "std_late", [via_old("checkpoint"), W("checkpoint", cont=True)],
+        only=["move", "open", "write"] if q else None, cuts=[0.5] if q else cuts)
+    add("ins-two-kills-via-old", "ins", [via_old("checkpoint_keep"), W("checkpoint_keep")],
+        only=["move", "open", "write"] if q else None, cuts=[0.5] if q else cuts)
+    # first kill inside the write of the temp file: the resume reads the .old copy as well (keep) / the primary
+    add("std-two-kills-in-write", "std_late", [dict(W("checkpoint"), k=3, j=9000), W("checkpoint")],
+        only=["move"] if q else None, cuts=[0.5] if q else cuts)
     if not q:
+        add("std-early-two-kills-via-old", "std_early", [via_old("checkpoint"), W("checkpoint", cont=True)])
+        add("std-two-kills-via-old-nokeep", "std_late", [via_old("checkpoint"), W("checkpoint_nokeep")])
+        add("ins-two-kills-primary", "ins", [dict(W("checkpoint"), k=1, j=9000), W("checkpoint")])
+        add("std-three-kills-via-old", "std_late",
+            [via_old("checkpoint"), dict(W("checkpoint"), kk=["move", 1]), W("checkpoint")])
         add("std-late-ckpt-onlyold", "std_late", [W("checkpoint", [["rm", "PKL"]])])
         add("std-late-ckpt-stalewhole", "std_late", [W("checkpoint", [stale_whole])])
         add("std-late-nokeep-onlyold", "std_late", [W("checkpoint_nokeep", [stale_torn, ["rm", "PKL"]])])
@@ -264,7 +310,8 @@ def ops_term(step, sampler, nm):
     if role_of(wr) == "pickle":
         keep = {"checkpoint": sampler == "std", "checkpoint_keep": True, "checkpoint_nokeep": False}[wr]
         sk = "sk_dump_keep" if keep else "sk_dump_nokeep"
-        return f"({sk} (Base Pkl) (PkP {nm.ver(step['new_ver'])} {step['new_w']}))", "(Base Pkl)"
+        held = step.get("held") or "(Base Pkl)"      # the file this (possibly resumed) sampler checkpoints to
+        return f"({sk} {held} (PkP {nm.ver(step['new_ver'])} {step['new_w']}))", held
     target = None
     for e in step["events"]:
         target = e.get("f") or e.get("a")
@@ -390,7 +437,8 @@ def run(chk):
                 "checkpoint and weights writers on real run directories of both samplers (early = uninformed phase, "
                 "late = flow phase, importance sampler with 3 levels), write runs cut after j bytes for j over a set of "
                 "fractions; initial directories varied (no checkpoint yet, only .old, stale torn/complete .temp, stale "
-                "level file, torn model.pt left by an earlier kill); non-trivial = the kill left a directory that "
+                "level file, torn model.pt left by an earlier kill) and two-kill histories (kill, resume - through the .old "
+                "fallback or not -, kill during the resumed sampler's next checkpoint, resume); non-trivial = the kill left a directory that "
                 "differs from both the initial and the final one or a file open; distinct by (case id, k, j)")
     chk.assumptions += [
         "rename (shutil.move / os.replace on one file system) is atomic; crash = process kill (os._exit), not power loss: "
@@ -513,7 +561,7 @@ def run(chk):
     txt += f"Definition outcomes := {cL(outcomes)}.\nEval vm_compute in (mism (chk_outcome rc_now) outcomes).\n"
     txt += ("Definition rc_now_short : rcfg := {| rc_wcls := wcls_all; rc_catch1 := rc_catch1 rc_now; "
             "rc_try_old := rc_try_old rc_now; rc_wcatch := rc_wcatch rc_now; rc_wfallback := rc_wfallback rc_now; "
-            "rc_welif_old := rc_welif_old rc_now |}.\n")
+            "rc_welif_old := rc_welif_old rc_now; rc_wremove := rc_wremove rc_now |}.\n")
     txt += (f"Definition outcomes_short := {cL(outcomes_short)}.\n"
             "Eval vm_compute in (mism (chk_outcome rc_now_short) outcomes_short).\n")
     txt += (f"Definition atomics := {cL([a[0] for a in atomics])}.\nEval vm_compute in (mism (chk_atomic rc_now) atomics).\n"
